@@ -22,6 +22,7 @@ BY_PROPERTY = {
               'Mahotas.pybody_morph_tophat_open_eq_model', 'Mahotas.pybody_morph_tophat_close_eq_model',
               'Mahotas.pybody_c02Prims_consistent'])],
     'C16': [('Mahotas.Proofs.PyBodyTiesC16', ['Mahotas.pybody_thresholding_gbernsen_eq_model',
+                                              'Mahotas.pybody_thresholding_bernsen_eq_model',
                                               'Mahotas.pybody_thresholding_otsu_eq_model',
                                               'Mahotas.pybody_thresholding_soft_threshold_eq_model']),
             ('Mahotas.Proofs.PyBodyTiesC16Rc', ['Mahotas.pybody_thresholding_rc_eq_model', 'Mahotas.pybody_rc_guard',
